@@ -243,12 +243,15 @@ async fn apply_remote_deletes(
             use std::fmt::Write as _;
             use tokio::io::AsyncWriteExt;
             let mut list = String::new();
+            // NUL-delimited: a stale name may contain a newline, and a list split
+            // at newlines would hand `rm` pieces of it (other files, or paths
+            // relative to the remote working directory).
             for rel in dels {
-                let _ = writeln!(list, "{}/{}", remote_root, rel.display());
+                let _ = write!(list, "{}/{}\0", remote_root, rel.display());
             }
             if let Ok(mut child) = tokio::process::Command::new("ssh")
                 .arg(host)
-                .arg("xargs -d '\\n' rm -f --")
+                .arg("xargs -0 rm -f --")
                 .stdin(std::process::Stdio::piped())
                 .stdout(std::process::Stdio::null())
                 .stderr(std::process::Stdio::piped())
